@@ -282,10 +282,10 @@ Definition model_obs_u (u : ucase) : list (list Z) :=
 (* the error path of the dispatch: an operation answers the no-node error iff dispatcher.Get finds no node
    for (one of) its key(s) — [owner] = none, i.e. the instance's ring is empty.  (A cache cluster WITH nodes
    answers its errNotFound for an ordinary miss as well: not determined there.) *)
-Definition m_nonode (u : ucase) (o : cop) : option bool :=
-  let lost i k := match owner (u_insts u) (u_keys u) i k with None => true | Some _ => false end in
+Definition m_nonode (insts : list inst) (keys : list (Z * Z)) (o : cop) : option bool :=
+  let lost i k := match owner insts keys i k with None => true | Some _ => false end in
   match o with
-  | CSingle i k => if lost i k then Some true else if is_cache (u_insts u) i then None else Some false
+  | CSingle i k => if lost i k then Some true else if is_cache insts i then None else Some false
   | CDel i ks | CDelX i ks => Some (existsb (lost i) ks)
   | _ => Some false
   end.
@@ -297,7 +297,8 @@ Definition agrees_u (u : ucase) : bool :=
   list_eqb zs_eqb (map (fun r => enc_touches (snd r)) (u_run u)) (utouch u) &&
   forall2b (fun m o => match m with Some g => zs_eqb g o | None => true end)
            (model_snaps (uops u) (u_run u)) (usnaps u) &&
-  forall2b (fun o r => res_ok (m_nonode u o) r) (uops u) (ures u).
+  (let insts := u_insts u in let keys := u_keys u in     (* the rings are built once *)
+   forall2b (fun o r => res_ok (m_nonode insts keys o) r) (uops u) (ures u)).
 
 (* ---- the property on the observed touches: against the node maps, not against the ring ---- *)
 Definition u_maps (u : ucase) : list amap :=
@@ -365,10 +366,16 @@ Fixpoint usnaps_ok (u : ucase) (cf : bool) (clean : bool) (ops : list cop) (snap
    (and the operation names a key at all) *)
 Definition u_is_cache (u : ucase) (i : Z) : bool :=
   if i <? 0 then false else match nth_error (uinsts u) (Z.to_nat i) with Some ic => fst ic | None => false end.
-Definition p_nonode (u : ucase) (o : cop) : option bool :=
+Definition no_members_in (maps : list amap) (i : Z) : bool :=
+  if i <? 0 then false else
+  match nth_error maps (Z.to_nat i) with
+  | Some m => match members m with [] => true | _ => false end
+  | None => false
+  end.
+Definition p_nonode (u : ucase) (maps : list amap) (o : cop) : option bool :=
   match o with
-  | CSingle i _ => if no_members u i then Some true else if u_is_cache u i then None else Some false
-  | CDel i ks | CDelX i ks => Some (no_members u i && match ks with [] => false | _ => true end)
+  | CSingle i _ => if no_members_in maps i then Some true else if u_is_cache u i then None else Some false
+  | CDel i ks | CDelX i ks => Some (no_members_in maps i && match ks with [] => false | _ => true end)
   | _ => Some false
   end.
 
@@ -376,7 +383,7 @@ Definition prop_ok_u (u : ucase) : bool :=
   let cf := collision_free (uvh u) && table_ok (uvh u) (uR u) in
   if negb (forallb (fun ic => weights_in_domain (uR u) (snd ic)) (uinsts u)) then true else
   forall2b (ustep_ok u cf) (uops u) (utouch u) && usnaps_ok u cf false (uops u) (usnaps u) &&
-  forall2b (fun o r => res_ok (p_nonode u o) r) (uops u) (ures u).
+  (let maps := u_maps u in forall2b (fun o r => res_ok (p_nonode u maps o) r) (uops u) (ures u)).
 
 (* ==== concurrent executions (harness/cmd/c15/conc.go) ============================================
    Several goroutines call Add / AddWithReplicas / AddWithWeight / Remove on ONE ring; the executor
